@@ -637,7 +637,24 @@ async fn master_requests(a: &ShardArgs, idx: u64) {
     for _ in 0..r.range(2, 8) {
         // what the user asks for, and (for reads) the header list it must produce
         let mut expect: Option<Vec<(u8, u8, u8, u32, u32)>> = None;
-        let req = match r.below(9) {
+        let req = match r.below(10) {
+            9 => {
+                // file requests carry strings with explicit sizes: plain, empty and multi-octet characters
+                let texts = [
+                    "some/file.txt",
+                    "",
+                    "données/température_°C.csv",
+                    "文件/数据.bin",
+                    "ü",
+                    "a-rather-long-name-with-😀-in-it-and-more-text-after-the-emoji.dat",
+                ];
+                UserReq::FileNamed(
+                    r.below(5) as u8,
+                    r.pick(&texts).to_string(),
+                    r.pick(&texts).to_string(),
+                    r.pick(&texts).to_string(),
+                )
+            }
             0 => UserReq::ReadClasses([r.bool(), r.bool(), r.bool(), true]),
             1 | 2 => {
                 let mut hs = vec![];
@@ -748,6 +765,9 @@ async fn master_requests(a: &ShardArgs, idx: u64) {
                     Ok(o) => {
                         tally("A1", &o);
                         out::distinct(&format!("A1/f{}", f[1]));
+                        if (25..=29).contains(&f[1]) {
+                            out::count("A1_file_requests_checked", 1);
+                        }
                     }
                     Err(v) => report(a, "A1", idx, &v, f, &ctx),
                 }
